@@ -15,6 +15,10 @@
      - which file plays which role (Files::sort + the accessors left / right / specification /
        program / user_guide / proof_outline), which parser reads it, in which ORDER the files are
        looked up and parsed (the first failure decides between Error and Panic);
+     - `Files::sort(files).context("unable to sort the given files by their function")?`: a walkdir
+       error (since /repo 8bcb21d links are followed: a dangling link, a link to a directory that
+       contains it - Model/Files.v [WErr]) ends the command with exit status 1 BEFORE any file is
+       read, whichever roles the remaining files would have played;
      - a program as specification (`Either::Left`) vs. a specification file (`Either::Right`), the
        empty specification as default proof outline;
      - the fields of the task structs: decomposition, formula_representation, direction,
@@ -198,14 +202,21 @@ Definition decompose_external (fuel : nat) (t : ext_task) : vstep (list ext_warn
   | XNonterminating => VStop VOutOfFuel
   end.
 
+(* let files = Files::sort(files).context("unable to sort the given files by their function")?;
+   a walkdir::Error (dangling link, link to a containing directory) -> `main` returns Err *)
+Definition sort_files (c : verify_command) : vstep (Files.files string) :=
+  match Files.sort (v_files c) with
+  | Files.WOk files => VGot files
+  | Files.WErr _ => VStop VError
+  end.
+
 (* let problems = match equivalence { Strong => .., External => .. }; *)
 Definition problems_of (fuel : nat) (c : verify_command) : vstep (list ext_warning * list problem) :=
-  (* Files::sort(files).context("unable to sort the given files by their function")? *)
-  let files := Files.sort (v_files c) in
+  vthen (sort_files c) (fun files =>
   match v_equivalence c with
   | Strong => vthen (strong_task_from_files c files) (decompose_strong fuel)
   | External => vthen (external_task_from_files c files) (decompose_external fuel)
-  end.
+  end).
 
 (* ------------------------------------------------------------------ --save-problems *)
 Definition starts_with_slash (s : string) : bool :=
@@ -285,25 +296,47 @@ Definition dir_state (writes : list (string * string)) : list (string * string) 
 (* ------------------------------------------------------------------ file trees with contents *)
 (* a convenient way to give [a_files] and [read] together (used by the driver and the Examples):
    the path arguments as trees whose regular files carry their text; paths are built as
-   Files.walk builds them *)
+   Files.walk builds them.  Symbolic links as in Model/Files.v: a link to a regular file carries the
+   text that `read_to_string(<path of the link>)` returns (the text of the file at the end of the
+   chain); a link to a directory carries that directory's entries, which are read at
+   `<path of the link>/<entry>`. *)
+Inductive ctarget :=
+| CTFile (text : string)   (* Files.LFile: a regular file with this text *)
+| CTSpecial                (* Files.LSpecial *)
+| CTDangling               (* Files.LDangling *)
+| CTLoop.                  (* Files.LLoop *)
+
 Inductive cnode :=
 | CFile (name text : string)
 | CSpecial (name : string)
-| CDir (name : string) (children : list cnode).
+| CDir (name : string) (children : list cnode)
+| CLink (name : string) (target : ctarget)
+| CLinkDir (name : string) (children : list cnode).
+
+Definition erase_target (t : ctarget) : Files.ltarget :=
+  match t with
+  | CTFile _ => Files.LFile
+  | CTSpecial => Files.LSpecial
+  | CTDangling => Files.LDangling
+  | CTLoop => Files.LLoop
+  end.
 
 Fixpoint erase (n : cnode) : Files.node :=
   match n with
   | CFile s _ => Files.File s
   | CSpecial s => Files.Special s
   | CDir s cs => Files.Dir s (map erase cs)
+  | CLink s t => Files.Link s (erase_target t)
+  | CLinkDir s cs => Files.LinkDir s (map erase cs)
   end.
-Definition cnode_name (n : cnode) : string := match n with CFile s _ | CSpecial s | CDir s _ => s end.
+Definition cnode_name (n : cnode) : string :=
+  match n with CFile s _ | CSpecial s | CDir s _ | CLink s _ | CLinkDir s _ => s end.
 
 Fixpoint contents (path : string) (n : cnode) : list (string * string) :=
   match n with
-  | CFile _ text => [(path, text)]
-  | CSpecial _ => []
-  | CDir _ cs =>
+  | CFile _ text | CLink _ (CTFile text) => [(path, text)]
+  | CSpecial _ | CLink _ _ => []
+  | CDir _ cs | CLinkDir _ cs =>
     (fix go (l : list cnode) : list (string * string) :=
        match l with
        | [] => []
@@ -328,4 +361,4 @@ Definition run_verify_tree (a : verify_argv) (args : list cnode) : verify_result
   run_verify_argv (lookup (file_system args)) (with_files a args).
 
 (* EXTRACT: equivalence verify_argv verify_command clap_parse verify_result run_verify run_verify_argv
-   run_verify_tree dir_state cnode path_push with_files lookup file_system *)
+   run_verify_tree dir_state ctarget cnode path_push with_files lookup file_system *)
